@@ -420,6 +420,55 @@ def rule_sheet_names(chk, fb, rid="C02.i"):
                key="Worksheet::set_name:visibility%s" % (":pub" if pub else ""))
 
 
+def rule_quote(chk, fb):
+    """Sheet names inside references: a quoted name has its apostrophes doubled. The doubling step may depend only on
+    the presence of an apostrophe in the name (and on the mode flag / the empty-name early return) - never on what else
+    has already been found, otherwise a name that is quoted for another reason keeps a bare apostrophe."""
+    from cfg import CFG
+    from mirq import Flow
+
+    r = chk.rule(
+        "C02.j",
+        "sheet-name quoting: where a reference is rendered with its sheet name, the step that doubles apostrophes is control-dependent only on `name contains \"'\"`, the mode flag and the empty-name test",
+        floor=1,
+    )
+    n = 0
+    for d, b in sorted(fb.mir.items()):
+        if not b.get("self_ty", "").endswith("::Address"):
+            continue
+        fl = Flow(fb, b)
+        cfg = None
+        for bi, t in fl.calls(lambda t: t.get("fn", "").endswith("str>::replace")):
+            if not (len(t["args"]) == 3 and t["args"][1].get("s") == "'" and ("const", "''") in fl.atoms(t["args"][2])):
+                continue
+            cfg = cfg or CFG(b)
+            bad = []
+            for x in sorted(cfg.control_deps_transitive(bi)):
+                tt = b["blocks"][x]["t"]
+                if tt["k"] != "switch":
+                    continue
+                at = fl.atoms(tt["op"], through_calls=False)
+                ok = False
+                if at and all(a[0] == "arg" and fb.ty(b["locals"][a[1]]["t"]) == "bool" for a in at):
+                    ok = True
+                calls = [a for a in at if a[0] == "call"]
+                if len(calls) == 1 and len(at) == 1:
+                    ct = b["blocks"][calls[0][2]]["t"]
+                    recv = fl.atoms(ct["args"][0]) if ct["args"] else set()
+                    on_name = any(a[0] == "field" and a[2] == "sheet_name" for a in recv)
+                    nm = calls[0][1].split("::")[-1]
+                    if on_name and nm == "is_empty":
+                        ok = True
+                    if on_name and nm == "contains" and len(ct["args"]) > 1 and (ct["args"][1].get("s") == "'" or ("const", "'") in fl.atoms(ct["args"][1])):
+                        ok = True
+                if not ok:
+                    bad.append("%s:%s" % (b["file"], tt.get("ln")))
+            chk.touch(d)
+            chk.ob(r, "%s:doubling#%d" % (d, n), not bad, where="%s:%s" % (b["file"], t["ln"]),
+                   detail="apostrophe doubling also depends on other conditions at %s" % bad if bad else "apostrophe doubling depends only on the apostrophe test, the mode flag and the empty-name test")
+            n += 1
+
+
 def run(chk, fb, tier):
     rule_content_types(chk, fb)
     rule_targets(chk, fb)
@@ -430,5 +479,6 @@ def run(chk, fb, tier):
     rule_space(chk, fb)
     rule_sheet_names(chk, fb, "C02.i")
     C01.rule_escape(chk, fb)
+    rule_quote(chk, fb)
     chk.assume("zip and quick-xml produce well-formed containers / XML for the events they are given")
     chk.note("not decided: that an independent reader decodes the file to the model (value-level); index-in-table bounds are runtime values")
